@@ -1637,7 +1637,8 @@ lyds_merge_nodes2(struct lyd_node **first_dst, struct lyd_node **leader_dst,
     lyds_merge_nodes2_back(first_dst, first_src, dst_iter, next_p);
 
     if (*next_p && ((*next_p)->schema == (*leader_dst)->schema)) {
-        ret = lyds_merge_nodes1(first_dst, leader_dst, root_meta_src, rbt_src, first_src, *next_p, next_p);
+        /* the rest of the source nodes is not in the RB tree, the root after their merge is stored in the metadata */
+        return lyds_merge_nodes1(first_dst, leader_dst, root_meta_src, rbt_src, first_src, *next_p, next_p);
     }
 
 cleanup:
